@@ -2,7 +2,7 @@
 import re
 
 ID = "C07"
-SUBMODULES = ["c07cli"]     # end-to-end: execute-silent on the real `sk` binary under a pty; the command handed to $SHELL is recorded, see c05cli.py
+SUBMODULES = ["c07cli", "c07s"]     # end-to-end: execute-silent on the real `sk` binary under a pty; the command handed to $SHELL is recorded, see c05cli.py
 N_QUICK, N_THOROUGH = 6000, 300000
 STRICT_MODEL = True
 RULE = ("command templates built from literal shell text, placeholders ({}, {n}, {q}, {cq}, field ranges, {+..}, junk, "
